@@ -1049,7 +1049,9 @@ class MultiUserChannelMatrix:  # pylint: disable=R0902
         K : int
             Number of users.
         """
-        if isinstance(N, (int, np.integer)):
+        if isinstance(N, (int, np.integer)) or np.ndim(N) == 0:
+            # A single number (python int, numpy integer or 0-dimensional
+            # array): the same number of antennas for every user
             return np.ones(int(K), dtype=int) * int(N)
         return np.atleast_1d(np.asarray(N)).astype(int)
 
@@ -1080,6 +1082,9 @@ class MultiUserChannelMatrix:  # pylint: disable=R0902
         """
         # If Nt or Nr (or both) is (are) int assume the same value should
         # be used for all users.
+        # K may come in any integer form (a np.uint64 would turn the indexes
+        # computed from it into floats)
+        K = int(K)
         Nr_array = MultiUserChannelMatrix._antenna_array(Nr, K)
         Nt_array = MultiUserChannelMatrix._antenna_array(Nt, K)
         del Nt, Nr
